@@ -198,6 +198,9 @@ def run(facts, rep, tier):
         for tr, flag in (("FromStr", "UntaggedFromStr"), ("Display", "UntaggedDisplay")):
             got = flags.get(flag, "")
             okf = got.startswith("((self.tag_type Eq EnumTagType::Untagged) And self.variants.iter().all(|..| match elem<self.variants.iter()>.details { VariantDetails::Item(_) => Some(") and ("| _ => None }.map_or_else(|..| false, |..|" in got) and got.rstrip(")").endswith(".has_impl($&TypeSpace, TypeSpaceImpl::%s" % tr)
+            # exactly two arms: `Item(t) => Some(t)` and `_ => None` (a one-element *tuple* variant is emitted as `V((T,))`, not as a newtype variant)
+            mm_ = re.search(r"match elem<self\.variants\.iter\(\)>\.details \{ (.*?) \}\.map_or_else\(", got)
+            okf = okf and bool(mm_) and re.fullmatch(r"VariantDetails::Item\(_\) => Some\([^|]*\) \| _ => None", mm_.group(1)) is not None
             rep.ob("C11.D1", "untagged-flag:%s" % tr, okf, "%s ⇔ untagged ∧ every variant is Item(t) with t.has_impl(%s)" % (flag, tr) if okf else "%s is computed as `%s`" % (flag, got[:220]))
     for flag, trait in (("UntaggedFromStr", "::std::str::FromStr"), ("UntaggedDisplay", "::std::fmt::Display")):
         ts = [t for t in ee.templates if t.impls and any(g[0] == "adaptor" and flag in g[2] for g in t.conds())]
